@@ -26,7 +26,7 @@ fn hist_cfg(variant: u64) -> HistCfg {
         jumps: variant % 3 == 2,
         cont_max: false,
         set_vars: true,
-        stop_at_end: true,
+        stop_at_end: true, bad_calls: false,
         jump_targets: None,
     }
 }
